@@ -20,3 +20,24 @@ claim(
     "Trusted: non-decreasing wall clock; durability of conn.commit() (C06).",
     "affine canonicalisation of the comparison + CFG placement (must-pass-through) queries",
 )
+claim(
+    "C02",
+    "other",
+    "Necessary structural clauses of the list-model equivalence, each decided for all ids, instants and histories: replace_last's target selection has the same descriptor (scope, order key, direction, limit 1) as a limit-1 read; delete/replace/lookup address exactly (event id, bucket); insert_many's partitions are complementary and routed to update-by-id / INSERT-without-id; ids are engine-allocated unique keys (schema) or max+1 over the bucket (memory).",
+    "Equality with the reference list model after every step of every history is NOT decided (it is a refinement proof over unbounded histories). Trusted: SQL semantics of the modelled subset, peewee builder translation.",
+    "embedded-SQL / query-chain descriptor comparison, list-pipeline descriptors for the memory backend, comprehension-condition complementarity",
+)
+claim(
+    "C03",
+    "other",
+    "Shape of the read path decided per backend for all windows and contents: window predicate of get_events and get_eventcount canonicalised to affine literals and required to be exactly {w.start <= ev.start+ev.dur, ev.start <= w.end} (non-strict, neutral sentinels, optional 24 h pre-filter); ORDER BY start descending; limit 0 / negative / positive handling and slice-after-filter; window rounding idioms in Bucket.get; the peewee clip loop's assignments by constant propagation of affine forms.",
+    "Not decided: the ~2 ms edge tolerance, float/julianday precision, SQLite planner behaviour on ties. Trusted: SQL comparison/ORDER BY/LIMIT semantics, datetime arithmetic = integer microsecond arithmetic.",
+    "affine canonicalisation of SQL conjuncts / peewee where() arguments / comprehension conditions; CFG dominance for limit handling; idiom matching for rounding",
+)
+claim(
+    "C07",
+    "other",
+    "aw-core's share of the ingestion loop: the 'newest event' read by get(limit=1) and rewritten by replace_last is the same row under the stream assumption (order key = start instant in all three backends, same scope), replace_last changes only instant/duration/data of that row, and the Bucket wrappers are pass-throughs. The merge rule is C08.",
+    "The ingestion loop itself lives in aw-server, and whole-stream equality with heartbeat_reduce is an inductive argument that is not machine-checked here.",
+    "embedded-SQL / query-chain descriptor comparison + pass-through (parameter forwarding) checks",
+)
